@@ -299,6 +299,16 @@ class ExprMixin:
                 return self.st.ghost[attr]
             if kind == 'kwdict':
                 return Py('boundbuiltin', base, attr)
+            if kind == 'pktfields':
+                return Py('pktfields_m', base.py[1], attr)
+            if kind == 'dynpayload':
+                return Py('extobj', 'dynpayload_m', base.py[1], attr)
+            if kind == 'extobj':
+                hook = self.spec.callbacks.get('extobj_attr')
+                r = hook(self, base, attr) if hook is not None else None
+                if r is None:
+                    raise Unsupported('attribute %s of %s' % (attr, base.py[1]))
+                return r
             if kind == 'super':
                 _k, ci, selfv = base.py
                 found = self.prog.find_method(self.self_pyclass(selfv)[0], self.self_pyclass(selfv)[1], attr, after=ci)
@@ -402,7 +412,14 @@ class ExprMixin:
 
     def pkt_attr(self, base, attr):
         layers = base.t.layers
+        if attr in ('fields', 'overloaded_fields'):
+            # scapy's per-instance value dicts: modelled as a view of the packet record, sound for fields whose
+            # declared default is None (unset and None are then the same reading); checked at each access
+            return Py('pktfields', base, attr)
         if attr == 'payload':
+            if len(layers) < 2 and '_pcls' in self.pkt_schema(layers[0]).fields and not self.spec_mode:
+                # the class of the payload is not known statically: a dynamic payload handle
+                return Py('dynpayload', base)
             if len(layers) < 2:
                 return Py('nopayload')
             return self.pkt_layer_ref(base, 1)
@@ -417,6 +434,10 @@ class ExprMixin:
             found = self.prog.find_method(sc.pyclass[0], sc.pyclass[1], attr)
             if found is not None:
                 return Py('bound', base, found[0], found[1])
+            # class-level constant of the packet class (e.g. AbstractBlock.crc_type_name)
+            r = self.class_attr(self.prog.cls(*sc.pyclass), attr)
+            if r is not None:
+                return r
         if attr in PKT_METHODS:
             return Py('pktmethod', base, attr)
         # scapy: attribute not declared by any layer
@@ -456,8 +477,38 @@ class ExprMixin:
             return V(t, L.l_slice(t, base.z, lo, hi))
         return V(t, z3.simplify(seq_slice(base.z, lo, hi)))
 
+    def pkt_field_named(self, pkt, name_v, what):
+        '''(layer index, layer, field) of the packet field a pkt.fields access names; the view is valid only
+        for a field whose declared default is None'''
+        if not (name_v.py and name_v.py[0] == 'strlit'):
+            raise Unsupported('%s with a symbolic field name' % what)
+        fn = name_v.py[1]
+        for i, layer in enumerate(pkt.t.layers):
+            sc = self.pkt_schema(layer)
+            if fn in sc.fields:
+                if sc.pyclass is not None:
+                    ci = self.prog.cls(*sc.pyclass)
+                    for dn, default, _o in self.pkt_defaults(ci):
+                        if dn == fn and default is not None and not (isinstance(default, ast.Constant) and default.value is None):
+                            raise Unsupported('%s of field %s whose default is not None' % (what, fn))
+                return i, layer, fn
+        raise Unsupported('%s of unknown field %s' % (what, fn))
+
     def get_item(self, base, idx):
         t = base.t
+        if is_py(base, 'pktfields'):
+            i, layer, fn = self.pkt_field_named(base.py[1], idx, 'fields[...]')
+            ft = self.pkt_schema(layer).fields[fn]
+            v = self.read_heap(self.pkt_layer_ref(base.py[1], i), ('pkt:' + layer, fn), ft)
+            if isinstance(ft, TOpt):
+                self.need(z3.Not(ft.is_none(v.z)), 'KeyError')
+            return v
+        if is_py(base, 'classattr') or is_py(base, 'extobj'):
+            hook = self.spec.callbacks.get('extobj_item')
+            r = hook(self, base, idx) if hook is not None else None
+            if r is None:
+                raise Unsupported('subscript of %s' % (base.py[1:],))
+            return r
         if is_py(base, 'kwdict') and idx.t is TStr:
             # a dict display with literal text keys, indexed by a text value: one branch per key
             if idx.py and idx.py[0] == 'strlit':
